@@ -61,7 +61,7 @@ func (s *Sync) Run(source, target Repository, defaultStartDate time.Time) error 
 	}
 
 	s.Logger.Info("Start syncing.", "assets", len(s.Assets))
-	jobs := helper.SliceToChan(s.Assets)
+	jobs := helper.SliceToChan(uniqueNames(s.Assets))
 
 	hasErrors := false
 	hasErrorsMutex := &sync.Mutex{}
@@ -113,4 +113,21 @@ func (s *Sync) Run(source, target Repository, defaultStartDate time.Time) error 
 	}
 
 	return nil
+}
+
+// uniqueNames returns the names without the repeated ones, keeping the first occurrence of each. Two
+// workers syncing the same asset at the same time would both start from the same last date and append
+// the same snapshots twice.
+func uniqueNames(names []string) []string {
+	seen := make(map[string]bool, len(names))
+	unique := make([]string, 0, len(names))
+
+	for _, name := range names {
+		if !seen[name] {
+			seen[name] = true
+			unique = append(unique, name)
+		}
+	}
+
+	return unique
 }
